@@ -299,6 +299,28 @@ def oracle_observers(scn, res):
     return v
 
 
+def to_crlf(s):
+    """coq/Ascii.v to_crlf: CR LF stays, a lone CR and a lone LF become CR LF"""
+    out, i = bytearray(), 0
+    while i < len(s):
+        c = s[i]
+        if c == 13:
+            out += b"\r\n"
+            i += 2 if i + 1 < len(s) and s[i + 1] == 10 else 1
+        elif c == 10:
+            out += b"\r\n"
+            i += 1
+        else:
+            out.append(c)
+            i += 1
+    return bytes(out)
+
+
+def from_crlf(s):
+    """coq/Ascii.v from_crlf: CR LF becomes LF, everything else stays"""
+    return bytes(s).replace(b"\r\n", b"\n")
+
+
 def oracle_transfers(scn, res):
     """C03 / C04 / C07 / C12: what moved, what the callback and the sink were told"""
     v = []
@@ -334,6 +356,16 @@ def oracle_transfers(scn, res):
                 v.append((ci, "download/sink-differs-from-payload", "sink got %d bytes, peer sent %d" % (sunk_len, len(e["payload"]))))
             if [t for t in io if t in ("sf",)] != ["sf"] or (io and [t for t in io if t.startswith("sw") or t == "sf"][-1] != "sf"):
                 v.append((ci, "download/flush-not-once-at-the-end", " ".join(t[:8] for t in io[-6:])))
+        if e["kind"] == "D" and not e.get("cancelled") and typ == "A":
+            want = from_crlf(e["payload"])
+            if (sunk_len, sunk_hash) != (len(want), P.poly_hash(want)):
+                v.append((ci, "download/ascii-sink-differs-from-converted-payload", "sink got %d bytes, the payload of %d converts to %d" % (sunk_len, len(e["payload"]), len(want))))
+            if [t for t in io if t in ("sf",)] != ["sf"] or (io and [t for t in io if t.startswith("sw") or t == "sf"][-1] != "sf"):
+                v.append((ci, "download/flush-not-once-at-the-end", " ".join(t[:8] for t in io[-6:])))
+        if e["kind"] == "F" and typ == "A" and not a["out"].startswith("throw"):
+            txt = a["out"].rsplit(":", 1)[1]
+            if (b"" if txt == "-" else bytes.fromhex(txt)) != from_crlf(e["payload"]):
+                v.append((ci, "listing/ascii-text-differs-from-converted-payload", "got %d bytes" % (len(txt) // 2)))
         if e["kind"] == "F" and typ == "I" and not a["out"].startswith("throw"):
             txt = a["out"].rsplit(":", 1)[1]
             if (b"" if txt == "-" else bytes.fromhex(txt)) != e["payload"]:
@@ -372,6 +404,8 @@ def oracle_transfers(scn, res):
             k = 0
             if k < len(recs):
                 rec = recs[k]
+                if typ == "A" and not e.get("cancelled") and not e.get("source_has_empty_read") and rec["bytes"] != to_crlf(e["source"]):
+                    v.append((ci, "upload/ascii-peer-received-other-bytes", "peer got %d bytes, the source of %d converts to %d" % (len(rec["bytes"]), len(e["source"]), len(to_crlf(e["source"])))))
                 if typ == "I" and not e.get("cancelled") and rec["bytes"] != e["source"]:
                     v.append((ci, "upload/peer-received-other-bytes", "peer got %d bytes, source holds %d" % (len(rec["bytes"]), len(e["source"]))))
                 if cb is not None and not e.get("cancelled"):
@@ -438,7 +472,7 @@ def gen_mixed(rng, tier, dist, n, tls=False, observers=True, refusals=True, canc
         greeting = rng.choice([(220,), (220,), (220,), (120, 220)])
         plan = dict(user=rng.choice([331, 331, 331, 230, 332, 530, 421 if False else 500]), **{"pass": rng.choice([230, 230, 230, 202, 332, 530, 503])},
                     type=rng.choice([200, 200, 200, 504]), pbsz=rng.choice([200, 200, 200, 503]), prot=rng.choice([200, 200, 200, 534]))
-        login = (b"user", b"secret") if rng.random() < 0.7 else None
+        login = rng.choice([(b"user", b"secret")] * 6 + [(b"", b"pw"), (b"", b""), (b" ", b"x")] + [None] * 3)
         b.connect(login=login, greeting=greeting, plan=plan)
         if login is None and rng.random() < 0.8:
             b.login(b"anonymous", b"a@b", plan=dict(plan, user=rng.choice([331, 230])))
@@ -459,7 +493,13 @@ def gen_mixed(rng, tier, dist, n, tls=False, observers=True, refusals=True, canc
                 else:
                     b.remove_observer(rng.choice([1, 2, 3]))
                 dist.add("call:observer-add/remove")
-            elif r < 0.55:
+            elif r < 0.53:
+                # logout (REIN answered by one reply, by 120 + the final one, or refused), usually followed by a new login
+                b.logout(codes=rng.choice([(220,), (220,), (120, 220), (500,), (120, 421) if False else (230,)]))
+                if rng.random() < 0.7:
+                    b.login(rng.choice([b"other", b"", b"anonymous"]), b"pw2", plan=dict(plan, user=rng.choice([331, 230, 530])))
+                dist.add("call:logout(+login)")
+            elif r < 0.57:
                 b.mode, b.rfc = rng.choice([("P", True), ("P", False), ("A", True), ("A", False)])
                 b.add_call(("M", b.mode))
                 b.add_call(("Y", b.rfc))
@@ -515,7 +555,12 @@ def fam_observers(rng, n, dist):
                 b.rename(b"a", b"b", rng.choice([350, 550]))
             else:
                 add_transfer(b, rng, dist, refuse_at=rng.choice([None, None, "setup", "cmd"]))
-        if rng.random() < 0.5:
+        r = rng.random()
+        if r < 0.3 and b.connected:
+            # the server gives up: the 421 is a reply like any other for the observers
+            b.simple(rng.choice([b"PWD", b"NOOP"]), None, 421, multi=rng.random() < 0.4)
+            dist.add("observer:421")
+        elif r < 0.65 and b.connected:
             b.disconnect(True)
         out.append(b.scenario())
     return out
@@ -595,6 +640,38 @@ def fam_downloads(rng, n, dist, thorough=False):
     return out
 
 
+def fam_ascii(rng, n, dist, thorough=False):
+    """ASCII-type transfers end to end: payloads over {CR, LF, x} cut at every kind of boundary (between CR and LF, after a
+    lone CR, at the 8192-byte block), with and without a callback, downloads, uploads and listings"""
+    out = []
+    pieces = [b"one\r\n", b"two\r", b"x\r\r\n", b"three\n", b"\r\n", b"end\r", b"\r", b"\n", b"plain", b"a" * 8190 + b"\r", b"\nrest\r\n"]
+    for i in range(n):
+        mode, rfc = ALL_METHODS[i % 4]
+        b = S.Builder(rng, mode, rfc, type="A")
+        b.connect(login=(b"u", b"p"))
+        for _ in range(rng.randrange(1, 4)):
+            data = b"".join(rng.choice(pieces) for _ in range(rng.randrange(0, 7)))
+            # cut positions: between CR and LF wherever there is one, plus random cuts
+            cuts = sorted(set([k + 1 for k in range(len(data) - 1) if data[k] == 13] + [rng.randrange(0, len(data) + 1) for _ in range(rng.randrange(0, 4))]))
+            segs, pos = [], 0
+            for c in cuts:
+                if c > pos:
+                    segs.append(data[pos:c]); pos = c
+            if pos < len(data):
+                segs.append(data[pos:])
+            kind = rng.choice(["D", "D", "U", "F"])
+            cb = rng.choice([None, [False] * 200]) if kind != "F" else None
+            ci = b.transfer(kind, b"t.txt" if kind != "F" else None, payload_segs=segs, chunks=[x for x in segs if x], cb=cb,
+                            completion=rng.choice(["now", "on_close"]), upverb=rng.choice("SUA"))
+            if ci in b.xfer_map and kind != "U":
+                si, ri = b.xfer_map[ci]
+                b.sessions[si]["reactions"][ri]["data"]["pace_s"] = 0.002     # keep the segments apart on the wire
+            dist.add("ascii:%s:%s" % (kind, "callback" if cb else "no-callback"))
+        b.disconnect(True)
+        out.append(b.scenario())
+    return out
+
+
 def fam_uploads(rng, n, dist, thorough=False):
     out = []
     sizes = [0, 1, 8191, 8192, 8193, 16383, 16384, 16385, 20000] + ([100000, 1 << 20] if thorough else [])
@@ -625,6 +702,22 @@ def fam_uploads(rng, n, dist, thorough=False):
                 b.sessions[si]["reactions"][ri]["data"]["read_pace_s"] = 0.001
             dist.add("upload:size-%d:%s" % (size, style))
         b.disconnect(True)
+        out.append(b.scenario())
+    # a server that starts reading late, with a small receive buffer: megabytes are still queued in the client when it
+    # closes the data connection - they must all arrive, followed by a clean end of file (all four methods)
+    for mode, rfc in (ALL_METHODS if thorough else [rng.choice(ALL_METHODS[2:]), rng.choice(ALL_METHODS[:2])]):
+        b = S.Builder(rng, mode, rfc, type="I")
+        b.connect(login=(b"u", b"p"))
+        size = 3 << 20 if thorough else 2 << 20
+        block = bytes(rng.randrange(256) for _ in range(8192))
+        chunks = [block] * (size // 8192) + [b"tail"]
+        ci = b.transfer("U", b"late.bin", chunks=chunks, upverb=rng.choice("SUA"), cb=None)
+        if ci in b.xfer_map:
+            si, ri = b.xfer_map[ci]
+            b.sessions[si]["reactions"][ri]["data"].update(rcvbuf=8192, read_delay_s=0.4)
+        b.simple(b"NOOP", None, 200)
+        b.disconnect(True)
+        dist.add("upload:late-slow-reader:%s%s" % (mode, "-rfc2428" if rfc else ""))
         out.append(b.scenario())
     return out
 
@@ -753,11 +846,21 @@ def fam_tls(rng, n, dist):
             b.add_observer(1)
         plan = dict(pbsz=503 if fault == "pbsz" else 200, prot=534 if fault == "prot" else 200)
         login = (b"user-MARKER-u", b"pass-MARKER-p")
+        keep_using = fault in ("ctl-handshake", "unknown-ca") and rng.random() < 0.6
         b.connect(login=login, auth=rng.choice([500, 534, 502]) if fault == "auth-refused" else 234, plan=plan,
-                  tls_ok=(fault != "ctl-handshake"), tls_close_clean=(fault != "unclean-close"))
-        dist.add("tls:fault-%s" % fault)
+                  tls_ok=(fault != "ctl-handshake"), tls_close_clean=(fault != "unclean-close"), stay_plain=keep_using)
+        dist.add("tls:fault-%s%s" % (fault, "+keeps-using-the-client" if keep_using else ""))
         if fault in ("auth-refused", "ctl-handshake", "unknown-ca"):
+            if keep_using:
+                # the application ignores the failure and goes on with the same client object: nothing more may be sent
+                # (the peer has gone on as a plain server and would answer)
+                b.cur += [P.reaction([b.m(331)]), P.reaction([b.m(230)]), P.reaction([b.m(200)]), P.reaction([b.m(200)])]
+                b.failing(("L", b"user-MARKER-u", b"pass-MARKER-p"), cmds=[])
+                b.failing(("S", b"NOOP", None), cmds=[])
+                b.exp[-1]["check_open"] = b.exp[-2]["check_open"] = False
             b.disconnect(False)
+            if keep_using:
+                b.exp[-1]["may_throw"] = True
             out.append(b.scenario()); continue
         nops = rng.randrange(1, 5)
         rk = rng.randrange(0, nops)          # the transfer whose data port is answered by somebody else
@@ -787,7 +890,7 @@ def fam_tls(rng, n, dist):
         if b.connected:
             r = rng.random()
             if r < 0.3 and fault != "unclean-close":
-                b.logout()
+                b.logout(codes=rng.choice([(220,), (220,), (120, 220), (120, 230)]))
                 if rng.random() < 0.5:
                     b.login(b"again", b"pw")
                 b.disconnect(True)
@@ -911,6 +1014,11 @@ def oracle_tls(scn, res):
         for k, l in enumerate(lines):
             if l["line"].strip() == b"REIN":
                 break                 # the property is scoped to the span from connect until logout / disconnect
+            if log.get("stayed_plain_from") is not None and k >= log["stayed_plain_from"]:
+                # after a failed handshake: bytes that are no FTP command (a TLS alert) are fine, a command line is not
+                if re.match(rb"[A-Za-z]{3,4}( |\r?\n)", l["line"]):
+                    v.append((-1, "tls/command-sent-in-clear-after-failed-handshake", "session %d: %r" % (si, l["line"][:40])))
+                continue
             if not l["secured"] and l["line"].strip() != b"AUTH TLS":
                 v.append((-1, "tls/command-in-clear-text", "session %d: %r travelled unencrypted" % (si, l["line"][:40])))
         raw = log.get("raw_in", b"")
@@ -1077,7 +1185,7 @@ def fam_dispatch(rng, n, dist):
 ORACLES.update(tls=oracle_tls, reuse=oracle_reuse, endpoints=oracle_endpoints)
 
 FAMILIES = dict(mixed=lambda rng, n, dist, th: gen_mixed(rng, "quick", dist, n), observers=lambda r, n, d, th: fam_observers(r, n, d),
-                abor=lambda r, n, d, th: fam_abor(r, n, d), downloads=fam_downloads, uploads=fam_uploads,
+                abor=lambda r, n, d, th: fam_abor(r, n, d), downloads=fam_downloads, uploads=fam_uploads, ascii=fam_ascii,
                 refusals=lambda r, n, d, th: fam_refusals(r, n, d), cancel=lambda r, n, d, th: fam_cancel(r, n, d),
                 args=lambda r, n, d, th: fam_args(r, n, d), tls=lambda r, n, d, th: fam_tls(r, n, d),
                 reconnect=lambda r, n, d, th: fam_reconnect(r, n, d), reuse=lambda r, n, d, th: fam_reuse(r, n, d),
@@ -1086,18 +1194,19 @@ FAMILIES = dict(mixed=lambda rng, n, dist, th: gen_mixed(rng, "quick", dist, n),
 # ---------------------------------------------------------------------------------------------- the checks
 PROPS = {
     # id: families with their share of the scenario budget, correspondence projections, oracles
-    "C02": dict(fam=[("mixed", 5), ("abor", 2), ("refusals", 1)], proj=["out", "state", "wire"], oracles=["lockstep"]),
+    "C02": dict(fam=[("mixed", 5), ("abor", 2), ("refusals", 1), ("tls", 1)], proj=["out", "state", "wire"], oracles=["lockstep"]),
     "C09": dict(fam=[("args", 4), ("mixed", 2), ("reconnect", 2)], proj=["out", "wire"], oracles=["commands"]),
     "C10": dict(fam=[("mixed", 6), ("args", 1), ("refusals", 1), ("tls", 2)], proj=["out", "state", "wire"], oracles=["commands", "state"]),
     "C14": dict(fam=[("observers", 5), ("mixed", 2)], proj=["out", "obs"], oracles=["observers"]),
-    "C03": dict(fam=[("downloads", 6), ("mixed", 1)], proj=["out", "io"], oracles=["transfers"]),
-    "C04": dict(fam=[("uploads", 6), ("mixed", 1)], proj=["out", "io", "wire"], oracles=["transfers"]),
+    "C03": dict(fam=[("downloads", 6), ("mixed", 1), ("ascii", 1)], proj=["out", "io"], oracles=["transfers"]),
+    "C04": dict(fam=[("uploads", 6), ("mixed", 1), ("ascii", 1)], proj=["out", "io", "wire"], oracles=["transfers"]),
     "C07": dict(fam=[("refusals", 6), ("mixed", 1)], proj=["out", "io", "held", "wire"], oracles=["transfers", "sockets", "lockstep"]),
     "C12": dict(fam=[("cancel", 5), ("mixed", 1), ("uploads", 1)], proj=["out", "io", "wire"], oracles=["transfers", "commands", "lockstep"]),
     "C17": dict(fam=[("mixed", 3), ("refusals", 1), ("cancel", 1), ("reconnect", 1), ("tls", 1)], proj=["out", "held"], oracles=["sockets"]),
     "C11": dict(fam=[("tls", 6), ("reconnect", 1)], proj=["out", "state", "wire"], oracles=["tls", "commands"], n=(90, 500)),
     "C13": dict(fam=[("reconnect", 6), ("tls", 1)], proj=["out", "state", "held", "wire"], oracles=["state", "sockets", "lockstep", "tls"], n=(120, 600)),
     "C18": dict(fam=[("reuse", 1)], proj=["out", "wire"], oracles=["reuse"], n=(60, 300)),
+    "C05": dict(fam=[("ascii", 1)], proj=["out", "io"], oracles=["transfers"], n=(60, 300)),
     "C06": dict(fam=[("dispatch", 5), ("tls", 1)], proj=["out", "wire", "held"], oracles=["endpoints", "commands"], n=(160, 800)),
 }
 
@@ -1134,7 +1243,7 @@ def check_into(rep, prop, tier, rng, module=None, merge=False):
             rep.coverage["theorems"] = prev.get("theorems", []) + rep.coverage.get("theorems", [])
             rep.coverage["print_assumptions"] = dict(prev.get("print_assumptions", {}), **rep.coverage.get("print_assumptions", {}))
             rep.coverage["checker_cmd"] = prev.get("checker_cmd", "") + " ; " + rep.coverage.get("checker_cmd", "")
-    else:
+    elif module != "-none-":
         rep.broken("coq:%s.v missing" % module, "no theorem file for this property yet")
     from props import leaf
     dist = leaf.Dist()
@@ -1155,8 +1264,10 @@ def check_into(rep, prop, tier, rng, module=None, merge=False):
             return True
         return any(ORACLES[o](scn, res) for o in spec["oracles"])
     bad = [i for i in range(len(scns)) if is_bad(scns[i], results[i])]
-    if bad and len(bad) <= 60:
-        again = P.run_scenarios([scns[i] for i in bad], exe, drv, work, tier + "-again", nworkers=1)
+    if bad:
+        # (bounded: the shortest histories first, at most 24 of them, blocked ones last)
+        bad = sorted(bad, key=lambda i: (results[i]["status"] != "ok", len(scns[i]["calls"])))[:24]
+        again = P.run_scenarios([scns[i] for i in bad], exe, drv, work, tier + "-again", nworkers=2)
         for i, r in zip(bad, again):
             if not is_bad(scns[i], r):
                 rep.notes.append("scenario %d disagreed in the parallel run and agreed when re-run alone (load): not reported" % i)
